@@ -108,6 +108,21 @@ def _ok(x, order):
 
 
 def gen(rng, nrng, tier):
+    # FFT-size coincidences: N + order - 1 (and N + order) an exact power of two
+    for p2 in (32, 64, 128, 256):
+        for order in ([1, 3, 8] if tier == "quick" else [1, 2, 3, 5, 8, 13, 21, 30]):
+            for off in (1, 0):
+                N = p2 + off - order
+                if N < order + 2 or N > 260:
+                    continue
+                for cplx in (False, True):
+                    x, dk = gen_data(nrng, N, cplx, kind="noise")
+                    x = np.asarray(x)
+                    yield ("yule", {"x": x if cplx else x.astype(float), "order": order, "exact": False, "dkind": dk})
+    for N in ((256, 300) if tier == "quick" else (256, 257, 300, 513, 1000)):   # long records
+        for cplx in (False, True):
+            x, dk = gen_data(nrng, N, cplx, kind="tone")
+            yield ("yule", {"x": np.asarray(x) if cplx else np.asarray(x).astype(float), "order": int(nrng.integers(1, 13)), "exact": False, "dkind": dk})
     n = 260 if tier == "quick" else 4000
     kinds = ["noise", "tone", "trend", "int", "czero", "const"]
     for i in range(n):
